@@ -49,13 +49,13 @@ MANIFEST = {
 
 QUANT = ['volFrac', 'Ravg', 'drivingForce', 'nucRate', 'precipitateDensity', 'composition']
 N_SETS = {'quick': 10, 'thorough': 40}
-N_BASE = {'quick': 3, 'thorough': 12}
+N_BASE = {'quick': 4, 'thorough': 12}
 
 
 def _baseline(rng, k, tier):
-    system = ['alzr', 'nialcr', 'almgsi'][k % 3]
+    system = ['alzr', 'nialcr', 'almgsi', 'cuti'][k % 4]     # cuti: binary system with two precipitate phases
     cfg = precip.default_cfg(system)
-    cfg['iterator'] = 'euler' if k % 2 == 0 else 'rk4'
+    cfg['iterator'] = 'euler' if (k // 4 + k) % 2 == 0 else 'rk4'
     cfg['constraints'] = {'dtScale': float(rng.choice([0.1, 0.3]))}
     if system == 'alzr':
         cfg['x0'] = [float(rng.uniform(4e-3, 6e-3))]
@@ -66,6 +66,10 @@ def _baseline(rng, k, tier):
         cfg['x0'] = [float(rng.uniform(0.10, 0.115)), float(rng.uniform(0.07, 0.09))]
         cfg['schedule'] = {'kind': 'iso', 'T': float(rng.uniform(1030, 1080))}
         cfg['segments'] = [float(np.exp(rng.uniform(np.log(3e2), np.log(3e3))))]
+    elif system == 'cuti':
+        cfg['x0'] = [float(rng.uniform(0.012, 0.025))]
+        cfg['schedule'] = {'kind': 'iso', 'T': float(rng.uniform(610, 680))}
+        cfg['segments'] = [float(np.exp(rng.uniform(np.log(3e2), np.log(5e3))))]
     else:
         cfg['schedule'] = {'kind': 'iso', 'T': float(rng.uniform(440, 470))}
         cfg['segments'] = [float(np.exp(rng.uniform(np.log(5e3), np.log(5e4))))]
